@@ -34,8 +34,12 @@ def gen_tok(k, kinds=('g',), families=None, rng=None, cap=None):
 
 # ------------------------------------------------------------------ random strings
 POOL_ASCII = list("abcXYZ019") + list("-._~!$'()*,;:") + list(" \"<>%@?#`{}/+&=|\\^[]") + ['\t', '\x01', '\x7f']
-POOL_UNI = ['é', 'Æ', 'ß', 'ǅ', 'İ', '日', '𝄞', '́', 'K', 'ſ']
+POOL_UNI = ['é', 'Æ', 'ß', 'ǅ', 'İ', '日', '𝄞', '́', 'K', 'ſ', 'Σ', 'ΑΣ', 'ς']
+ODD = ['...', '....', '.a', 'a.', '..a', '. .', '%', '+', 'a b', '.', '..', '-', '_', '%2F', 'a%zz', '%%', '\\', 'A', 'é', ':', ',', 'a:b,c:d']
 def rstr(rng, lo=1, hi=6, exclude=''):
+    if lo >= 1 and rng.random() < 0.12:
+        o = rng.choice(ODD)
+        if not any(ch in exclude for ch in o): return o
     n = rng.randint(lo, hi)
     out = []
     while len(out) < n:
@@ -83,7 +87,7 @@ def random_tuple(rng, typed=False):
     if rng.random() < 0.25:
         cs = {}
         for _ in range(rng.randint(1, 3)):
-            alg = rng.choice(['sha1', 'sha256', 'md5', 'b2', 'x-y', 'é1', 'ǆ'])
+            alg = rng.choice(['sha1', 'sha256', 'md5', 'b2', 'x-y', 'é1', 'ǆ', 'ασ', 'sha512', 'sha512-256', 'urn:sha1'])
             cs[alg] = bytes(rng.randrange(256) for _ in range(rng.choice([0, 1, 2, 4])))
         quals['checksum'] = ','.join(f'{a}:{cs[a].hex()}' for a in sorted(cs, key=lambda a: a.encode()))
     sub = []
@@ -276,7 +280,7 @@ def gen_fault(rng, n, kinds=('g', 't')):
 # ------------------------------------------------------------------ G-corpus
 def corpus_strings():
     out = []
-    d = '/repo/xtask/src/generate_tests'
+    d = os.environ.get('VERIF_REPO', '/repo') + '/xtask/src/generate_tests'
     for f in sorted(os.listdir(d)) if os.path.isdir(d) else []:
         if f.endswith('.json'):
             for e in json.load(open(os.path.join(d, f))):
@@ -304,7 +308,7 @@ def gen_corpus(rng, nmut, kinds=('g', 't')):
             elif op < 0.7 and s: del s[min(i, len(s) - 1)]
             elif s: s[min(i, len(s) - 1)] = rng.choice(MUT_ALPHA)
         for k in kinds: yield f'P {k} {hx("".join(s))}'
-def gen_corpus_files(d='/verif/corpus'):
+def gen_corpus_files(d=os.path.join(os.path.dirname(os.path.abspath(__file__)), '..', 'corpus')):
     for f in sorted(os.listdir(d)) if os.path.isdir(d) else []:
         if f.endswith('.case'):
             for l in open(os.path.join(d, f)):
@@ -340,6 +344,7 @@ def gen_names(rng, tier):
             yield f'P t {hx("pkg:" + ty + "/" + e)}'
             yield f'B t {idx} {hx(n)} -'
     alpha = ['a', 'A', '1', '-', '_', '.', 'Æ', 'ǅ']
+    for n in ['ΟΔΟΣ', 'ΑΣ', 'aΣ', 'Σ', 'ΑΣ-Σ', 'ΑΣa', 'AÆ', 'MyÆsir.Core', 'aΣ.bΣ', 'İ', 'ẞ', 'ſK']: yield from cases(n)
     for k in range(1, 5 if tier == 'quick' else 6):
         for w in itertools.product(alpha, repeat=k):
             yield from cases(''.join(w))
@@ -443,7 +448,7 @@ def gen_qops(rng, nrand):
         yield 'F ' + (','.join(ps) or '-')
 
 # ------------------------------------------------------------------ G-cs
-CALGS = ['sha1', 'SHA1', 'Sha1', 'md5', 'MD5', 'ǅ', 'ǆ', 'Ǆ', 'a:b', '', 'é', 'É', 'b2', 'K', 'a b']
+CALGS = ['sha1', 'SHA1', 'Sha1', 'md5', 'MD5', 'ǅ', 'ǆ', 'Ǆ', 'a:b', '', 'é', 'É', 'b2', 'K', 'a b', 'ΑΣ', 'ασ', 'ας', 'sha512', 'sha512-256', 'sha512.1', 'urn:sha256']
 def gen_cs(rng, n):
     for c in CSOPS: yield f'C {c}'
     for _ in range(n):
@@ -533,9 +538,19 @@ def gen_pair(rng, n, kinds=('g', 't', 's', 'b', 'o')):
                 elif f == 'ns': u['ns'] = t['ns'] + ['x'] if rng.random() < 0.5 else t['ns'][:-1]
                 elif f == 'sub': u['sub'] = t['sub'] + ['x'] if rng.random() < 0.5 else t['sub'][:-1]
                 else:
-                    u['cs'] = None
-                    u['quals'] = {k: v for k, v in t['quals'].items() if k != 'checksum'}
-                    u['quals'][rkey(rng)] = rng.choice(['a&b=c', 'x', 'a=b'])
+                    u['cs'] = None; t = dict(t); t['cs'] = None
+                    base = {k: v for k, v in t['quals'].items() if k != 'checksum'}
+                    t['quals'] = dict(base); u['quals'] = dict(base)
+                    k0 = rkey(rng); v0 = rng.choice(['a&b=c', 'x', 'a=b', 'i386'])
+                    r = rng.random()
+                    if r < 0.3:   # one key a proper prefix of the other
+                        t['quals'][k0] = v0; u['quals'][k0 + rng.choice(['x', '_y', '.z', '0', 'itecture'])] = v0
+                    elif r < 0.5:  # one value a proper prefix of the other
+                        t['quals'][k0] = v0; u['quals'][k0] = v0 + rng.choice(['x', ' ', '&'])
+                    elif r < 0.7:  # same keys, neighbouring order positions
+                        t['quals'][k0 + '_b'] = '1'; t['quals'][k0 + 'b'] = '2'; u['quals'][k0 + '_b'] = '2'; u['quals'][k0 + 'b'] = '1'
+                    else:
+                        u['quals'][k0] = v0
             else:
                 # move a separator between neighbouring fields
                 f = rng.choice(['ns-name', 'name-ver', 'q-split', 'ver-q'])
